@@ -55,13 +55,13 @@ Roots == {RootSeq[i] : i \in {i \in DOMAIN RootSeq : i % NShards = Shard /\ Kind
 (***************************************************************************)
 (* Scalar alphabets (boundary values).                                      *)
 (***************************************************************************)
-StrAlpha  == <<"s", "", "ü✓">>
+StrAlpha  == <<"s", "", "ü✓", "a\"b\\c\nd">>          \* plain, empty, non-ASCII, characters that need escaping
 IntAlpha  == <<JInt(0), JInt(1), JInt(-1), JBig(1, MaxD), JBig(-1, MinAbsD)>>
 UIntAlpha == <<JInt(0), JInt(1), JBig(1, MaxD)>>
-DecAlpha  == <<JDec("0.5"), JInt(1)>>
+DecAlpha  == <<JDec("0.5"), JInt(1), JDec("-1.5")>>
 BoolAlpha == <<JBool(FALSE), JBool(TRUE)>>
 AnyAlpha  == <<JNull, JInt(1), JStr("s"), JArr(<<JInt(1), JStr("s")>>),
-               JObj("a" :> JObj("b" :> JNull))>>
+               JObj("a" :> JObj("b" :> JNull)), JArr(<<JNull, JBool(TRUE), JDec("0.5"), JArr(<<>>)>>)>>
 CustomStr == "x-custom"
 CustomInt == 99
 
